@@ -137,6 +137,10 @@ def check_trace(res, tr, clause_prefix="C02"):
             r0 = st.initial_remaining(tid)
             if hist is not None and not hist["state"]:
                 continue  # state kept: the remaining work is whatever the first call left
+            if prevR[tid][0] == FINISHED and not st.exempt(tid):
+                res.add("finish_early", clause_prefix + ".finished_at_start_without_full_default_progress",
+                        "%s is FINISHED right after initialize although its default progress is %r (work %r): it never had a step in which "
+                        "its remaining work reached zero" % (tid, st.tasks[tid].get("dp", 0.0), st.tasks[tid]["work"]), -1)
             if not close(prevR[tid][1], r0, exact):
                 res.add("initial", clause_prefix + ".initial_remaining", "remaining work of %s after initialize is %r, "
                         "expected default_work_amount*(1-default_progress) = %r" % (tid, prevR[tid][1], r0), -1)
@@ -227,6 +231,17 @@ def check_trace(res, tr, clause_prefix="C02"):
             if RT[tid][0] in (WORKING, FINISHED, 3):
                 started_prev[tid] = True
         prevR = RT
+    # what simulate() leaves behind: the update of the iteration in which it returns has been made (also at the time limit)
+    if tr.out.ok and steps and steps[-1].ph.get("recorded") is not None and prevR is not None:
+        from .. import director as D
+        now = D.snapshot(tr.ix)["T"]
+        for tid in st.order:
+            ps, prem = prevR[tid][0], prevR[tid][1]
+            if ps == WORKING and prem < TOL and now[tid][0] != FINISHED and finish_deps_ok(st, tid, prevR, started_prev, now):
+                res.add("finish_late", clause_prefix + ".finish_late.at_return",
+                        "%s was WORKING with remaining %r at the last recorded step; when simulate() returned (time %r) it is still %s"
+                        % (tid, prem, tr.project.time, SNAME.get(now[tid][0], now[tid][0])), steps[-1].t)
+                break
     return contributed
 
 
